@@ -7,6 +7,7 @@ OPS = {
   'OpsBatch': {'o1': ('call', [False]), 'o2': ('batch', [False, True, False])},
   'OpsMixed': {'o1': ('call', [False]), 'o2': ('notify', [True]), 'o3': ('batch', [True, False])},
   'OpsOne':   {'o1': ('batch', [False, False])},
+  'OpsThree': {'o1': ('call', [False]), 'o2': ('batch', [False, False]), 'o3': ('call', [False])},
 }
 
 def cfg_info(cfgname):
@@ -32,6 +33,7 @@ def convert(beh, rng, name, ops, opts, steer=True):
         elif act == 'PeerClose': steps.append(dict(a='peerclose'))
         elif act == 'RecvError': steps.append(dict(a='recverr'))
         elif act == 'SendFails': steps.append(dict(a='sendfail'))
+        elif act == 'SendHeals': steps.append(dict(a='sendheal'))
         elif act == 'RdFail': steps.append(dict(a='gate', site='cli.fail.lock'))
         elif act == 'Close': steps.append(dict(a='close'))
         elif act == 'CloseReturn': steps.append(dict(a='closereturn'))
@@ -83,6 +85,14 @@ def directed(rng):
         add('recverr-%d' % v, {}, [op('o1'), D, dict(a='recverr'), D, op('o2', 'notify'), D])
         add('garbage-%d' % v, {}, [op('o1'), D, dict(a='garbage'), D, op('o2'), D])
         add('sendfail-%d' % v, {}, [dict(a='sendfail'), op('o1'), op('o2', 'batch', [False, True]), op('o3', 'notify'), D])
+        # a transient send failure: the failed operation leaves nothing behind, later ones work, ids stay unique
+        add('sendfail-transient-%d' % v, {}, [op('o1'), D, dict(a='sendfail'), op('o2', 'batch', [False, False]), D, dict(a='sendheal'), op('o3'), op('o4', 'batch', [False, True, False]), D,
+                                              peer(R(1), R(2), R(3)), D, peer(R(4), R(5), R(6)), D])
+        # ids allocated to two operations alternately; the one holding the latest id fails to send; the next id must still be fresh
+        G = lambda site, o: dict(a='gate', site=site, op=o)
+        add('id-interleave-sendfail-%d' % v, {}, [op('o1', 'batch', [False, False]), op('o2'), G('cli.req.lock', 'o1'), G('cli.req.lock', 'o2'), G('cli.req.lock', 'o1'),
+                                                  G('cli.send.lock', 'o2'), dict(a='sendfail'), G('cli.send.lock', 'o1'), dict(a='sendheal'), op('o3'), D,
+                                                  op('o4', 'batch', [False, True, False]), D, peer(R(2, e)), D, peer(R(4), R(5), R(6), R(3), R(1)), D])
         add('eof-callback-%d' % v, {'callback': True}, [peer(('call', 7, False)), D, dict(a='peerclose'), D, dict(a='close'), D, dict(a='cbret', id='7'), D])
         add('close-callback-%d' % v, {'callback': True, 'recvUnblocks': e}, [op('o1'), peer(('call', 7, False)), D, dict(a='close'), D, dict(a='peerclose'), D, dict(a='cbret', id='7'), D])
         add('close-twice-%d' % v, {'callback': True}, [peer(('call', 7, False)), D, dict(a='recverr'), D, dict(a='close'), D, dict(a='cbret', id='7'), D])
@@ -90,8 +100,8 @@ def directed(rng):
     return out
 
 FAMILY = {
-  'C04': (['cli_c04q'], ['cli_c04q', 'cli_c04'], ['cli_c04', 'cli_c04q', 'cli_c05m'], 40),
-  'C05': (['cli_c05u'], ['cli_c05u', 'cli_c05m', 'cli_c05', 'cli_live'], ['cli_c05', 'cli_c05u', 'cli_c05m'], 40),
+  'C04': (['cli_c04q'], ['cli_c04q', 'cli_c04', 'cli_c04s'], ['cli_c04', 'cli_c04q', 'cli_c05m', 'cli_c04s'], 40),
+  'C05': (['cli_c05u'], ['cli_c05u', 'cli_c05m', 'cli_c05', 'cli_c04s', 'cli_live'], ['cli_c05', 'cli_c05u', 'cli_c05m', 'cli_c04s'], 40),
 }
 
 def gen_scenarios(prop, tier, seed, nsim):
